@@ -576,6 +576,23 @@ theorem unionDelMap_left (r : Reg) (x : Int) (h : ∀ o ∈ minimize r, x < o.1)
   · rintro ⟨o, ho, h1, _⟩
     have := h o ho; omega
 
+/-- **`unionDelMap` in words of the INPUT only**: a position `x ≥ 0` that no located region covers
+moves left by the NUMBER OF COVERED POSITIONS below it (located regions at non-negative
+positions) — the re-mapping does not depend on how the regions are presented. -/
+theorem unionDelMap_eq_count (r : Reg) (hw : ∀ o ∈ minimize r, 0 ≤ o.1) (x : Int) (hx : 0 ≤ x)
+    (hc : ¬ cover r x) :
+    Cli.unionDelMap (minimize r) x =
+      some (x - ((List.range x.toNat).countP fun (k : Nat) => decide (cover r (k : Int)) : Nat)) := by
+  have hcs : ¬ segsCover (minimize r) x := fun h => hc ((minimize_segsCover r x).mp h)
+  unfold Cli.unionDelMap
+  rw [if_neg hcs, Cli.delOffset_eq_count _ (minimize_fwd r) ((minimize_pairwise r).imp Int.le_of_lt)
+    hw x hx hcs]
+  congr 3
+  apply List.countP_congr
+  intro k _
+  simp only [Cli.covB]
+  rw [decide_eq_decide.mpr (minimize_segsCover r _)]
+
 /-- `unionDelMap` is injective where it is defined (two surviving residues never collide) -/
 theorem unionDelMap_inj (r : Reg) (x x' y : Int) (h : Cli.unionDelMap (minimize r) x = some y)
     (h' : Cli.unionDelMap (minimize r) x' = some y) : x = x' := by
@@ -692,6 +709,42 @@ theorem delete_erase_feature_origin (loc : Seq → List Reg) (s : Seq) (f' : Fea
   obtain ⟨f, hf, rfl⟩ := List.mem_map.mp hf'
   obtain ⟨hm, hk⟩ := List.mem_filter.mp hf
   exact ⟨f, hm, hk, rfl, rfl, rfl⟩
+
+/-- **`gts delete -e` never drops a feature that keeps a residue** (safety, in terms of the
+INPUT): if a feature with a well-formed location is dropped, every residue it denoted is covered
+by a located region — provided K2 fires in no step before the drop. -/
+theorem delete_erase_dropped_covered_partial (loc : Seq → List Reg) (s : Seq) (f : Feature)
+    (hw : f.loc.wf = true) (hk2 : Cli.delAbs (minimize (many (loc s))) f.loc = false)
+    (hd : Cli.eraseKeep (minimize (many (loc s))) f = false) :
+    ∀ p ∈ f.loc.den, cover (many (loc s)) p.1 := by
+  intro p hp
+  rw [← unionDelMap_removed_iff, ← delete_remap_compose]
+  exact Cli.composeDel_none_of_dropped _ f hw hk2 hd p hp
+
+/-- … equivalently: a feature one of whose residues survives is kept (with that residue). -/
+theorem delete_erase_kept_of_survivor_partial (loc : Seq → List Reg) (s : Seq) (f : Feature)
+    (hw : f.loc.wf = true) (hk2 : Cli.delAbs (minimize (many (loc s))) f.loc = false)
+    (p : Pos) (hp : p ∈ f.loc.den) (hs : ¬ cover (many (loc s)) p.1) :
+    Cli.eraseKeep (minimize (many (loc s))) f = true := by
+  cases h : Cli.eraseKeep (minimize (many (loc s))) f with
+  | true => rfl
+  | false => exact absurd (delete_erase_dropped_covered_partial loc s f hw hk2 h p hp) hs
+
+/-- **`gts delete -e` drops every plain range lying within one maximal located stretch**
+(liveness for the contiguous kind, in terms of the INPUT): a non-`source` feature `s..e` with
+`[s, e)` inside one minimised segment of the located regions fails `eraseKeep`, so it is not
+written (`delete_erase_feats`).  No guard: a range is never `Join`ed. -/
+theorem delete_erase_drops_ranged (loc : Seq → List Reg) (s : Seq) (f : Feature)
+    (st e : Int) (p5 p3 : Bool) (hloc : f.loc = .ranged st e p5 p3) (hse : st < e)
+    (hns : f.key ≠ "source") (a : Seg) (ha : a ∈ minimize (many (loc s)))
+    (hin : a.1 ≤ st ∧ e ≤ a.2) :
+    Cli.eraseKeep (minimize (many (loc s))) f = false := by
+  obtain ⟨pre, post, hsplit⟩ := List.append_of_mem ha
+  have hp := minimize_pairwise (many (loc s))
+  rw [hsplit] at hp ⊢
+  have hpost := (List.pairwise_cons.mp (List.pairwise_append.mp hp).2.1).1
+  exact Cli.eraseKeep_false_of_ranged_within pre a post f st e p5 p3 hloc hse hns hin
+    (fun b hb => by have := hpost b hb; omega)
 
 /-! ## insert / infix: what happens to the FEATURES (multi-site) -/
 
@@ -1232,6 +1285,9 @@ example : (Cli.delete loc1 false s1).feats.map (·.loc.den) =
 example : (s1.feats.map (Cli.eraseKeep (minimize (many (loc1 s1))))) = [true, true, false] ∧
     (Cli.delete loc1 true s1).feats.map (·.key) = ["source", "gene"] := by
   unfold Cli.delete; rw [minimize_eq]; decide
+
+/-- hypotheses of `delete_erase_drops_ranged` for the `misc_feature` `3..5` (0-based `[2,5)`) -/
+example : (2, 5) ∈ minimize (many (loc1 s1)) := by rw [minimize_eq]; decide
 
 /-- guest `NN` with one feature over both residues -/
 def guest1 : Seq := ⟨[⟨"misc_feature", .ranged 0 2 false false, []⟩], [78, 78]⟩
